@@ -53,6 +53,10 @@ def gen_cases(tier, seed):
             srcs = []
         elif cls == "missing-source":
             srcs.insert(pos, "does-not-exist")
+            if r.random() < 0.35:
+                # named literally while --glob is on: still a missing source, not a pattern (a pattern with wildcards that matches
+                # nothing is not claimed, see ASSUMPTIONS)
+                opts += ["--glob"]
         elif cls == "dir-without-r":
             spec.append({"p": "adir", "k": "d"})
             spec.append({"p": "adir/x", "k": "f", "size": 4, "seed": 2, "segs": None})
